@@ -239,3 +239,12 @@ MFIN = [(WM, "mcryptA_final"), (WM, "mcryptB_final"), (WM, "msteps_hom")]
 for pid, items in (("C02", MFIN), ("C03", MFIN[:2]), ("C12", MFIN[:2])):
     if pid in PLAN:
         add_imports(pid, WHI + ["ModelCipher", "WholeMantis"]); PLAN[pid] += items
+
+# MANTIS key-schedule functions (WholeMantisKey.v): the specifications the regenerated obligations are checked against, on the
+# image of a model schedule, equal the image of the model's result
+WMK = "WholeMantisKey.v"
+MKF = [(WMK, "w_mantis_set_key_model"), (WMK, "w_mantis_set_tweak_model"), (WMK, "w_mantis_swap_model")]
+for pid, items in (("C02", MKF), ("C03", MKF[:1] + MKF[2:]), ("C10", MKF[:1] + KEYF[1:])):
+    if pid in PLAN:
+        add_imports(pid, WHI + ["ModelCipher", "WholeMantis", "WholeMantisKey"])
+        PLAN[pid] += [i_ for i_ in items if i_ not in PLAN[pid]]
